@@ -231,9 +231,10 @@ func runCheck(id, tier string, seed int64, only string) int {
 	os.RemoveAll(rdir)
 	os.MkdirAll(rdir, 0755)
 	type pending struct {
-		rf   replayFile
-		path string
-		viol bool
+		rf       replayFile
+		path     string
+		viol     bool
+		fallback bool // path the engine could not follow: the native run decides
 	}
 	var pend []pending
 	nSamples := spec.Samples
@@ -247,7 +248,18 @@ func runCheck(id, tier string, seed int64, only string) int {
 				rf.Repeat = 300
 			}
 			p := filepath.Join(rdir, fmt.Sprintf("%s-v%d.json", rep.Harness, k))
-			pend = append(pend, pending{rf, p, true})
+			pend = append(pend, pending{rf, p, true, false})
+		}
+		// paths the engine could not follow (unsupported foreign call, engine
+		// fault): run them natively with the inputs of the explored prefix
+		for k, s := range rep.Fallback {
+			rf := replayFile{Harness: rep.Harness, Inputs: s.Inputs, Tier: tierN, Outcome: s.Outcome, Property: id, Tables: s.Tables, Detail: "native fallback: " + firstLine(s.Msg), SkipObserved: true}
+			rf.Forks = forksFromTraceSample(s)
+			if s.Scheduled {
+				rf.Repeat = 50
+			}
+			p := filepath.Join(rdir, fmt.Sprintf("%s-f%d.json", rep.Harness, k))
+			pend = append(pend, pending{rf, p, false, true})
 		}
 		// sample paths for conformance (seeded rotation)
 		cnt := 0
@@ -267,7 +279,7 @@ func runCheck(id, tier string, seed int64, only string) int {
 			}
 			rf.Forks = forksFromTraceSample(s)
 			p := filepath.Join(rdir, fmt.Sprintf("%s-s%d.json", rep.Harness, cnt))
-			pend = append(pend, pending{rf, p, false})
+			pend = append(pend, pending{rf, p, false, false})
 			cnt++
 		}
 	}
@@ -293,13 +305,43 @@ func runCheck(id, tier string, seed int64, only string) int {
 	known := loadKnown()
 	exit := 0
 	validated := 0
+	fallbackOK := 0
 	mismatches := []string{}
 	spurious := []string{}
 	knownHit := []string{}
 	var violLines []string
-	for _, p := range pend {
+	for pi := range pend {
+		p := &pend[pi]
 		nr := natives[p.path]
 		if nr == nil {
+			continue
+		}
+		if p.fallback {
+			// the engine gave up on this path: the native run is the verdict
+			switch {
+			case nr.Panicked != "":
+				p.rf.Label = "uncaught-panic"
+			case nr.TimedOut:
+				p.rf.Label = "budget"
+			case len(nr.Failures) > 0:
+				p.rf.Label = nr.Failures[0]
+			default:
+				fallbackOK++
+				os.Remove(p.path)
+				continue
+			}
+			data, _ := json.MarshalIndent(p.rf, "", " ")
+			os.WriteFile(p.path, data, 0644)
+			if kf := matchKnown(known, id, &p.rf); kf != nil {
+				line := fmt.Sprintf("KNOWN-FINDING: property=%s %s [%s/%s]", id, kf.What, p.rf.Harness, p.rf.Label)
+				if !contains(knownHit, line) {
+					knownHit = append(knownHit, line)
+				}
+				continue
+			}
+			violLines = append(violLines, fmt.Sprintf("VIOLATION property=%s replay=%s", id, p.path))
+			fmt.Fprintf(os.Stderr, "zsym: violation (native fallback for a path the engine could not follow) %s/%s inputs=%v forks=%v detail=%s\n", p.rf.Harness, p.rf.Label, p.rf.Inputs, p.rf.Forks, p.rf.Detail)
+			exit = 1
 			continue
 		}
 		if !p.viol {
@@ -354,7 +396,7 @@ func runCheck(id, tier string, seed int64, only string) int {
 	}
 	// remove sample replays (only violations are kept on disk)
 	for _, p := range pend {
-		if !p.viol {
+		if !p.viol && !(p.fallback && p.rf.Label != "") {
 			os.Remove(p.path)
 		}
 	}
@@ -390,7 +432,8 @@ func runCheck(id, tier string, seed int64, only string) int {
 		"map_range_sites_in_zn_packages": len(mapSites), "map_range_sites_executed": mapCovered, "map_range_sites_not_executed": mapUncovered,
 		"load_s": loadS, "spurious_counterexamples": spurious, "engine_mismatches": mismatches,
 		"known_findings_hit": knownHit, "vacuity_witnesses_violated": witnessOK, "vacuity_witnesses": len(witnesses),
-		"zn_source_files_loaded": len(w.ZnFiles),
+		"zn_source_files_loaded":                               len(w.ZnFiles),
+		"paths_not_followed_replayed_natively_without_failure": fallbackOK,
 	}
 	_ = ev
 	writeEvidence(id, tier, seed, t0, reports, extra, incomplete, spec, w, validated, violLines, pendSamples(pend))
